@@ -146,6 +146,10 @@ func (w *World) classifyAttempt(o *Obs) attempt {
 				return none // handler error: no code in session
 			case row.SMSPhone == "":
 				at.kind = "ambiguous"
+			case sec == code.Value && code.Known != nil && code.Known.Kind == "sms" && code.Known.Number != row.SMSPhone:
+				// the code the session expects was sent to somebody else's
+				// number: not this account's factor
+				at.kind = "fail"
 			case sec == code.Value:
 				at.kind = "second_ok"
 			default:
